@@ -21,6 +21,21 @@ def fill_h_jobs(tier):
                       domain="every stride/x/y/width/height with the rectangle inside the buffer, every filler and buffer content, ghost pixel slot anywhere in the buffer (row padding, neighbouring bits)",
                       assumptions=["pixman_fill: stride > 0 and the rectangle lies inside the buffer described by (bits, stride) (caller's obligation)"],
                       timeout=600, min_props=3))
+    # (lead) the same with the heap block exactly the described buffer: no access of any kind outside it (C04; seeds C19-5, C04-1 class)
+    for bpp, words, smax, wmax, hmax in cfg:
+        if bpp == 1:
+            us = "pixman_fill1.0:%d,pixman_fill1.1:%d,pixman_fill1_line.0:%d" % (hmax + 2, hmax + 2, wmax // 32 + 2)
+        else:
+            us = "pixman_fill%d.0:%d,pixman_fill%d.1:%d" % (bpp, wmax + 2, bpp, hmax + 2)
+        js.append(Job("fill.h.exact.bpp%d" % bpp, "C19/fill_h.c",
+                      defines={"VC_BPP": bpp, "VC_WORDS": words, "VC_SMAX": smax, "VC_WMAX": wmax, "VC_HMAX": hmax, "VC_GUARDW": 0},
+                      cbmc_flags=PC + ["--unwindset", us], unwind=1, kind="bounded", extra_sources=RL,
+                      bound="width <= %d pixels, height <= %d, stride <= %d words, buffer %d words" % (wmax, hmax, smax, words),
+                      functions=["fast_path_fill", "pixman_fill%d" % bpp] + (["pixman_fill1_line"] if bpp == 1 else []),
+                      domain="as fill.h.bpp%d, the heap block being exactly the described buffer: every read and write stays inside it "
+                             "(rectangles ending at the last unit of the last row included)" % bpp,
+                      assumptions=["pixman_fill: stride > 0 and the rectangle lies inside the buffer described by (bits, stride) (caller's obligation)"],
+                      timeout=600, min_props=3))
     js.append(Job("fill.unsupported_bpp", "C19/fill_h.c", defines={"VC_UNSUPPORTED": None, "VC_WORDS": 8},
                   cbmc_flags=PC, unwind=1, kind="proof", functions=["fast_path_fill"], extra_sources=RL,
                   domain="every int bpp outside {1,8,16,32}, every other argument: FALSE and no word of the buffer changed",
